@@ -123,7 +123,10 @@ func main() {
 		}
 		extra := map[string]interface{}{"build_configs": perConfig}
 		if *tier == "thorough" && *mutant == "" {
-			extra["mutant_selftest"] = selfTest(id)
+			st := selfTest(id)
+			extra["mutant_selftest"] = st
+			fmt.Printf("%s selftest: %v applied, %v killed, %v skipped, %d survived, %v equivalent ok, %d false alarm(s)\n", id,
+				st["mutants_applied"], st["mutants_killed"], st["mutants_skipped"], len(st["mutants_survived"].([]string)), st["equivalent_rewrites_ok"], len(st["equivalent_false_alarms"].([]string)))
 		}
 		for _, f := range firstRes.Known {
 			fmt.Printf("KNOWN-FINDING: property=%s %s %s %s (%s)\n", f.Prop, f.Rule, f.Func, f.Construct, f.Pos)
